@@ -104,6 +104,10 @@ type Spec struct {
 	Zone        string `json:"zone,omitempty"`
 	ZoneOffNow  int64  `json:"zone_off_now,omitempty"`
 	ZoneOffThen int64  `json:"zone_off_then,omitempty"`
+	// collide scenarios (paths.go): the index names are words of the data directory's layout (final, ts, suffix, ...)
+	Collide bool `json:"collide,omitempty"`
+	// the data path of the scenario below its scratch directory (default "d"); "final/d": a data path with a directory called final
+	DataSub string `json:"data_sub,omitempty"`
 }
 
 func (s *Spec) hz0() int64 { return s.T0 - int64(s.Hours)*3600000 }
@@ -1464,9 +1468,15 @@ func evalObs(spec *Spec, dirOf map[int]string, o *Obs, passed []int64, where str
 		isNewer := newest > win[1]+margin
 		if inScope && isOlder && !gone {
 			add("retention_kept_expired", desc+" dir "+d+" still exists")
+			if s.Kind == "log" && collidesWithLayout(s.Name) {
+				add("expired_segment_of_index_named_like_the_data_layout_left_on_disk", desc+fmt.Sprintf(" dir %s still exists with its files; listed in segmeta.json=%v, known to the in-memory metadata=%v", d, isListed, contains(o.Mem, d)))
+			}
 		}
 		if isNewer && gone {
 			add("retention_deleted_newer", desc+" dir "+d+" was removed")
+			if s.Kind == "log" && collidesWithLayout(s.Name) {
+				add("newer_segment_of_index_named_like_the_data_layout_removed", desc+" dir "+d+" was removed")
+			}
 		}
 		if !inScope && gone {
 			add("retention_deleted_other_org", desc+" dir "+d+" was removed by a pass for orgs "+fmt.Sprint(passed))
@@ -1910,6 +1920,9 @@ func runScenario(idx int, spec *Spec, r *vhlib.Rng, cfg vhlib.Config) *scenarioR
 	scDir := filepath.Join(cfg.Out, fmt.Sprintf("sc%03d", idx))
 	_ = os.MkdirAll(scDir, 0o755)
 	data := filepath.Join(scDir, "d")
+	if spec.DataSub != "" {
+		data = filepath.Join(scDir, spec.DataSub)
+	}
 	_ = os.RemoveAll(data)
 	_ = os.RemoveAll(filepath.Join(scDir, "snap"))
 	spec.Dir = data
@@ -2011,6 +2024,26 @@ func runScenario(idx int, spec *Spec, r *vhlib.Rng, cfg vhlib.Config) *scenarioR
 			}
 		}
 		res.Fails = []fail{{directed, "consequences: " + strings.Join(names, ", ") + "; first: " + res.Fails[0].Detail}}
+	}
+	if spec.DataSub != "" && len(res.Fails) > 0 && dataPathFinalSignature(post) {
+		// directed scenario (paths.go): the consequences of one mechanism under one class; anything else is reported as it is
+		cl := map[string]bool{}
+		var names []string
+		for _, f := range res.Fails {
+			if !cl[f.Class] {
+				cl[f.Class] = true
+				names = append(names, f.Class)
+			}
+		}
+		first := res.Fails[0].Detail
+		for _, f := range res.Fails {
+			if f.Class == "retention_deleted_newer" {
+				first = f.Detail
+				break
+			}
+		}
+		res.Fails = []fail{{"pass_under_a_data_path_with_a_directory_called_final_removes_every_segment",
+			fmt.Sprintf("data path %s/: the pass removed the host's whole final/ directory (directories below it after the pass: %v); consequences: %s; first: %s", spec.DataSub, post.Dirs, strings.Join(names, ", "), first)}}
 	}
 	if ref.Ta-spec.T0 > newerMin-60000 {
 		return herr("scenario took %d ms: event times no longer unambiguous", ref.Ta-spec.T0)
@@ -2413,6 +2446,8 @@ func main() {
 		"a fourth stream for the clock side: GetRetentionTimeMs on time values of 13 zones (daylight saving on both hemispheres, 30-minute change, half-hour offsets, a skipped day, fixed offsets) " +
 		"at instants around every clock change 2012-2030 and with the horizon next to one, retentions 0 h .. 400 days, and the real pass in processes whose local zone has daylight saving " +
 		"(retention chosen from the date of the run so that the zone's latest clock change lies inside the window; segments 15 min older / newer than the horizon in every store); " +
+		"a fifth stream for names from the vocabulary of the data directory: the real key builder + GetSegBaseDirFromFilename on index names / stream ids / host ids / data paths equal to or containing final, ts, tth, suffix, wal-ts, ingestnodes, ... " +
+		"(one function evaluation per key, always counted non-trivial), and the real pass over stores whose indexes carry such names (every index with an expired and a newer segment; one store where only the index called final expires; one store under a data path with a directory called final); " +
 		"non-trivial = the pass removed at least one segment and kept at least one; distinct by (scenario, interruption point)")
 	r := vhlib.NewRng(cfg.Seed)
 
@@ -2486,7 +2521,29 @@ func main() {
 		specs = append(specs, genZone(rz.Fork(), i, z))
 		rngs = append(rngs, rz.Fork())
 	}
-	if only := os.Getenv("C14_ONLY"); only != "" {
+	// names from the vocabulary of the data directory (paths.go): forked after every older stream
+	rp := r.Fork()
+	segDirStream(rp.Fork(), sum, cfg)
+	nCollide := 3
+	if cfg.Thorough() {
+		nCollide = 40
+	}
+	for i := 0; i < nCollide; i++ {
+		specs = append(specs, genCollide(rp.Fork(), i))
+		rngs = append(rngs, rp.Fork())
+	}
+	specs = append(specs, genDataPathFinal(rp.Fork()))
+	rngs = append(rngs, rp.Fork())
+	if os.Getenv("C14_ONLY") == "collide" {
+		var ks []*Spec
+		var kr []*vhlib.Rng
+		for i := range specs {
+			if specs[i].Collide || specs[i].DataSub != "" {
+				ks, kr = append(ks, specs[i]), append(kr, rngs[i])
+			}
+		}
+		specs, rngs = ks, kr
+	} else if only := os.Getenv("C14_ONLY"); only != "" {
 		// debugging aid: run the scenarios of one kind only (the specs themselves do not change)
 		var ks []*Spec
 		var kr []*vhlib.Rng
@@ -2533,6 +2590,16 @@ func main() {
 		}
 		if res.Spec.Ties {
 			sum.Count("scenario_with_tied_newest_timestamps")
+		}
+		if res.Spec.Collide {
+			sum.Count("scenario_with_index_names_from_the_data_layout")
+			seenIx := map[string]bool{}
+			for _, sg := range res.Spec.allSegs() {
+				if !seenIx[sg.Name] && collidesWithLayout(sg.Name) {
+					seenIx[sg.Name] = true
+					sum.Count("index_named_" + sg.Name)
+				}
+			}
 		}
 		for k := 0; k < res.SharedNames; k++ {
 			sum.Count("empty_index_name_shared_with_a_later_org_dropped_by_the_next_cycle")
